@@ -1,3 +1,230 @@
 (* C04 — each request on a persistent connection is answered in order by the right origin.
-   Statements only (being written). *)
-From PM Require Import Lib.Bytes Net.Conversation Net.ConversationFacts.
+   Statements only; proofs are in Net/ConversationFacts.v.  Model: Net/Conversation.v (the composition
+   handler.handle_data -> first-request parse -> plugin.on_request_complete -> plugin.on_client_data for
+   every later segment, with the REAL HttpParser model Http/Parser.v, for the forward proxy, the web
+   server and the reverse proxy), after proposed_fixes/C04-pipelined-remainder.diff.
+
+   Vocabulary (Net/ConversationFacts.v):
+     message, render, message_ok   the abstract grammar of self-delimiting requests of C03
+     rq0 m                         request m as HttpParser leaves it (nothing following it)
+     names c m                     what m names: TOrigin host port bytes-to-be-received | TLocal plugin | TNone
+     expected_answer c answers m   the response the client must get for m in the world [answers]
+     quiet / settled / origins_answer   nobody closes and sockets exist before they are readable / the upstream
+                                   in use has nothing unsent / every origin connection has emitted exactly one
+                                   answer per request piece it received
+     run c (init ds) evs           the connection under the event list evs (client segments, upstream data,
+                                   flushes): client_bytes evs = the request bytes, cut into segments ANYWHERE *)
+From PM Require Import Lib.Bytes Lib.PyStr Http.Url Http.Parser Http.ParserFacts Http.Builders
+  Net.Conversation Net.ConversationCases Net.ConversationFacts.
+From Coq Require Import ZArith.
+
+(* ===================================================================================== *)
+(* THE PROPERTY IN FULL                                                                    *)
+
+(* For every configuration and every conversation of well-formed keep-alive requests that each name
+   an origin or a route: for every world of origins, EVERY way of packing the request bytes into
+   segments and EVERY interleaving with what the origins emit, the client receives exactly one
+   response per request, in request order, each the answer of what that request names, and the
+   connection is still open with no request pending.  [C04_statement] is this sentence: *)
+Theorem C04_statement_written_out :
+  C04_statement <->
+  (forall (c : cfg) (reqs : list message), wf_conversation c reqs ->
+   forall (answers : world) (ds : list nat) (evs : list event),
+     quiet c (init ds) evs ->
+     client_bytes evs = concat (map render reqs) ->
+     let s := run c (init ds) evs in
+     settled s -> origins_answer answers evs s ->
+     stat s = Alive /\ pending_request s = false /\
+     client_stream s = concat (map (expected_answer c answers) reqs)).
+Proof. split; intros H; exact H. Qed.
+Print Assumptions C04_statement_written_out.
+
+(* The code does NOT satisfy it (three recorded findings below). *)
+Theorem C04_statement_refuted : ~ C04_statement.
+Proof. exact statement_refuted. Qed.
+Print Assumptions C04_statement_refuted.
+
+(* ===================================================================================== *)
+(* WHAT IS PROVED: every packing, every interleaving, for the class where all requests name   *)
+(* the first request's origin (forward proxy) / route (web server)                            *)
+
+(* Forward proxy.  Requests m1 :: ms, each well-formed, without Upgrade header, not CONNECT,
+   naming the origin (h, pt), rebuildable; the request bytes cut into non-empty segments anywhere
+   (client_bytes evs = the concatenation), data from the upstream connection arriving at any point
+   after the first request's last byte, flushes anywhere.  Then: one connection, to (h, pt); it was
+   sent exactly fwd c m1, fwd c m2, ... (each request forwarded exactly once, in order); everything it
+   emitted was queued for the client in order; the connection is alive, the upstream still watched,
+   no request pending. *)
+Theorem C04_partial_forward : forall (c : cfg) (h : bytes) (pt : Z) (m1 : message) (ms : list message),
+  has_proxy c = true ->
+  Forall (fwd_class c h pt) (m1 :: ms) ->
+  http_handler_protocol (rq0 m1) = HTTP_PROXY ->
+  forall (ds : list nat) (evs : list event),
+  sched_ok (length (render m1)) evs ->
+  client_bytes evs = concat (map render (m1 :: ms)) ->
+  let s := run c (init ds) evs in
+  stat s = Alive /\ pipeline_request s = None /\ pending_request s = false /\
+  connect_log s = [(h, pt)] /\
+  (exists n, conns s = [mkUp h pt (map (fwd c) (m1 :: ms)) n false]) /\
+  client_q s = ups evs /\ registered s O = true.
+Proof. exact forward_partial. Qed.
+Print Assumptions C04_partial_forward.
+
+(* ... hence the full statement holds for these conversations. *)
+Theorem C04_partial_forward_holds : forall (c : cfg) (h : bytes) (pt : Z) (m1 : message) (ms : list message),
+  has_proxy c = true ->
+  Forall (fwd_class c h pt) (m1 :: ms) ->
+  Forall (fun m => http_handler_protocol (rq0 m) = HTTP_PROXY) (m1 :: ms) ->
+  C04_holds c (m1 :: ms).
+Proof.
+  intros c h pt m1 ms H1 H2 H3. apply (forward_holds c h pt m1 ms H1 H2); [|exact H3].
+  inversion H3; assumption.
+Qed.
+Print Assumptions C04_partial_forward_holds.
+
+(* Web server, local plugin j (handle_request queues respond(request); the answer must not depend
+   on the bytes FOLLOWING the request).  Requests m1 :: ms, each well-formed, keep-alive, without
+   Upgrade header, whose path names a route of plugin j; cut into segments anywhere; anything else may
+   happen in between except a close by the client.  Then the client was queued respond(m1), respond(m2),
+   ... exactly once each, in order; alive, nothing pending, no upstream connection. *)
+Theorem C04_partial_web : forall (c : cfg) (j : nat) (respond : parser -> list bytes),
+  has_web c = true ->
+  nth_error (web_plugins c) j = Some (WLocal respond) ->
+  (forall p b s, respond (set_buffer_size p b s) = respond p) ->
+  forall (m1 : message) (ms : list message),
+  Forall (web_class c j) (m1 :: ms) ->
+  http_handler_protocol (rq0 m1) = WEB_SERVER ->
+  forall (ds : list nat) (evs : list event),
+  wsched_ok evs ->
+  client_bytes evs = concat (map render (m1 :: ms)) ->
+  let s := run c (init ds) evs in
+  stat s = Alive /\ pipeline_request s = None /\ pending_request s = false /\ conns s = [] /\
+  client_q s = concat (map (resp respond) (m1 :: ms)).
+Proof. exact web_partial. Qed.
+Print Assumptions C04_partial_web.
+
+Theorem C04_partial_web_holds : forall (c : cfg) (j : nat) (respond : parser -> list bytes),
+  has_web c = true ->
+  nth_error (web_plugins c) j = Some (WLocal respond) ->
+  (forall p b s, respond (set_buffer_size p b s) = respond p) ->
+  forall (m1 : message) (ms : list message),
+  Forall (web_class c j) (m1 :: ms) ->
+  Forall (fun m => http_handler_protocol (rq0 m) = WEB_SERVER) (m1 :: ms) ->
+  C04_holds c (m1 :: ms).
+Proof.
+  intros c j respond H1 H2 H3 m1 ms H4 H5. apply (web_holds c j respond H1 H2 H3 m1 ms H4); [|exact H5].
+  inversion H5; assumption.
+Qed.
+Print Assumptions C04_partial_web_holds.
+
+(* ===================================================================================== *)
+(* WHY THE PACKING DOES NOT MATTER (the two lemmas everything rests on)                      *)
+
+(* [Pending p m r]: parser p is in the middle of request m and exactly the bytes r are missing.
+   Cutting r anywhere keeps the relation (this is where C03's two-piece law enters). *)
+Theorem C04_cut_anywhere : forall (p : parser) (m : message) (a r' : bytes),
+  no_upgrade m -> Pending p m (a ++ r') -> r' <> [] ->
+  exists p', parse p a = Ok p' /\ Pending p' m r'.
+Proof. exact Pending_short. Qed.
+Print Assumptions C04_cut_anywhere.
+
+(* The pipelining loop that server.py and web.py share (pipeline_round: parse; if complete: act,
+   take pipeline_request.buffer as the next input), on ONE segment cut anywhere in a stream of
+   requests ms: the requests that end inside the segment — [done] — are served exactly once, in
+   order; the parser is left absent at a request boundary or in the middle of the next request; the
+   bytes after the segment are exactly what the remaining requests still need ([Carry]). *)
+Theorem C04_pipelining_loop :
+  forall (round : hstate -> bytes -> hstate * result (option bytes))
+         (oc : hstate -> parser -> hstate * result (option parser)) (okm : message -> Prop)
+         (act : hstate -> message -> hstate) (G : hstate -> Prop),
+  (forall s raw, G s -> (forall p, pipeline_request s = Some p -> hhas p L_UPGRADE = false) ->
+                 round s raw = pipeline_round oc s raw) ->
+  (forall s m tail, G s -> okm m -> oc s (expected m tail) = (act s m, Ok None)) ->
+  (forall s m, G s -> okm m -> G (act s m)) ->
+  (forall s po, G s -> G (set_pipeline po s)) ->
+  (forall s po m, act (set_pipeline po s) m = set_pipeline po (act s m)) ->
+  forall (ms : list message) (fuel : nat) (s : hstate) (seg after : bytes),
+  Forall (msg_ok okm) ms -> G s -> Carry (pipeline_request s) ms (seg ++ after) -> seg <> [] ->
+  (length seg < fuel)%nat ->
+  exists done ms' po', ms = done ++ ms' /\
+    pipeline_loop fuel round s seg = (set_pipeline po' (fold_left act done s), Ok tt) /\
+    Carry po' ms' after.
+Proof. exact loop_segment. Qed.
+Print Assumptions C04_pipelining_loop.
+
+(* ===================================================================================== *)
+(* WHERE THE CODE VIOLATES THE PROPERTY (recorded findings; each witness is replayed on the     *)
+(* implementation by the harness: corpus/C04/known-findings.json)                               *)
+
+(* C04-other-origin — forward proxy: GET http://a.com/1 then GET http://b.com/x on one connection.
+   The second request is rebuilt and queued on the connection to a.com (on_client_data never looks
+   at the host): the client gets a.com's answer for a request that names b.com. *)
+Theorem C04_refuted_other_origin :
+  exists c reqs, wf_conversation c reqs /\ ~ C04_holds c reqs.
+Proof. exists (cfg_of cc_forward), [req_a1; req_bx]. exact (conj wf_other_origin other_origin_refuted). Qed.
+Print Assumptions C04_refuted_other_origin.
+
+Theorem C04_other_origin_behaviour :
+  let s := run (cfg_of cc_forward) (init []) evs_other_origin in
+  connect_log s = [(bs "a.com", 80%Z)] /\
+  length (up_queued (nth O (conns s) (mkUp [] 0 [] O true))) = 2%nat /\
+  names (cfg_of cc_forward) req_bx = TOrigin (bs "b.com") 80%Z (fwd (cfg_of cc_forward) req_bx).
+Proof. exact other_origin_behaviour. Qed.
+Print Assumptions C04_other_origin_behaviour.
+
+(* C04-web-followup-route — web server with plugins PlugA (/a) and PlugB (/b): GET /a1 then
+   GET /b1.  Later requests are dispatched to self.route, the route of the FIRST request. *)
+Theorem C04_refuted_web_route :
+  exists c reqs, wf_conversation c reqs /\ ~ C04_holds c reqs.
+Proof. exists (cfg_of cc_web), [req_wa; req_wb]. exact (conj wf_web_route web_route_refuted). Qed.
+Print Assumptions C04_refuted_web_route.
+
+Theorem C04_web_route_behaviour :
+  client_q (run (cfg_of cc_web) (init []) evs_web_route) =
+    tag_respond (bs "PlugA") (rq0 req_wa) ++ tag_respond (bs "PlugA") (rq0 req_wb) /\
+  names (cfg_of cc_web) req_wb = TLocal 1%nat.
+Proof. exact web_route_behaviour. Qed.
+Print Assumptions C04_web_route_behaviour.
+
+(* C04-reverse-followup — reverse proxy, route /x -> http://up-x.example:8001/base: GET /x1 then
+   GET /x2 before the first answer.  handle_request calls initialize_upstream again: a second
+   connection replaces self.upstream, the first is never read (nor closed) again: one response
+   for two requests.  With both requests in one segment the first is not even SENT. *)
+Theorem C04_refuted_reverse_followup :
+  exists c reqs, wf_conversation c reqs /\ ~ C04_holds c reqs.
+Proof. exists (cfg_of cc_reverse), [req_x1; req_x2]. exact (conj wf_reverse_followup reverse_followup_refuted). Qed.
+Print Assumptions C04_refuted_reverse_followup.
+
+Theorem C04_reverse_followup_behaviour :
+  let c := cfg_of cc_reverse in
+  (let s := run c (init []) evs_reverse_followup in
+   connect_log s = [(bs "up-x.example", 8001%Z); (bs "up-x.example", 8001%Z)] /\
+   upstream s = Some 1%nat /\
+   client_stream s = tag_world (bs "up-x.example") 8001%Z (sent_of c req_x2)) /\
+  (let s := run c (init []) [EClient (render req_x1 ++ render req_x2); EFlush] in
+   map up_stream (conns s) = [[]; sent_of c req_x2] /\
+   map up_all (conns s) = [sent_of c req_x1; sent_of c req_x2]).
+Proof. exact (conj reverse_followup_behaviour reverse_followup_one_segment). Qed.
+Print Assumptions C04_reverse_followup_behaviour.
+
+(* ===================================================================================== *)
+(* non-vacuity: three requests to a.com — GET, chunked POST (three chunks with extensions, a
+   trailer, a Proxy-Connection header to be dropped), POST with Content-Length — satisfy the class of
+   C04_partial_forward; sent as [1 1/2 requests][the rest] with the origin answering in two bursts
+   (the second split again) the model, by evaluation, forwards the three rebuilt requests on one
+   connection and the client's stream is exactly the three expected answers. *)
+Example C04_nonvacuous :
+  let c := cfg_of cc_forward in
+  has_proxy c = true /\ Forall (fwd_class c (bs "a.com") 80%Z) reqs3 /\
+  http_handler_protocol (rq0 req_a1) = HTTP_PROXY /\
+  sched_ok (length (render req_a1)) evs3 /\ client_bytes evs3 = stream3 /\
+  (length (render req_a1) < cut3 < length (render req_a1) + length (render req_a2))%nat /\
+  let s := run c (init []) evs3 in
+  map up_queued (conns s) = [map (fwd c) reqs3] /\
+  client_stream s = concat (map (expected_answer c tag_world) reqs3) /\
+  stat s = Alive /\ pending_request s = false.
+Proof.
+  cbv zeta. split; [reflexivity|]. split; [exact reqs3_class|]. split; [vm_compute; reflexivity|].
+  exact nonvacuous_run.
+Qed.
+Print Assumptions C04_nonvacuous.
